@@ -142,6 +142,7 @@ pub fn gen_case(rng: &mut Rng, c02: bool, thorough: bool) -> CrashCase {
     positions: rng.chance(1, 2),
     ids: 2 + rng.usize(3),
     transparent: rng.chance(1, 3),
+    odd_ids: rng.chance(1, 4),
   };
   // C01 too runs over disks that earlier crashes left behind (orphan files,
   // leftover temp files, un-truncated logs)
